@@ -80,10 +80,10 @@ def main():
             sh(["git", "-C", "/repo", "worktree", "remove", "--force", wt])
             shutil.rmtree(wt, ignore_errors=True)
             for p in os.listdir(os.path.join(ROOT, "bin")):
-                if "-alt-" in p:
+                if "-alt-" in p and p.lower().startswith(pid.lower()):
                     os.remove(os.path.join(ROOT, "bin", p))
             for p in os.listdir(os.path.join(ROOT, "runs")):
-                if "-alt-" in p:
+                if "-alt-" in p and p.lower().startswith(pid.lower()):
                     shutil.rmtree(os.path.join(ROOT, "runs", p), ignore_errors=True)
         res["wall_s"] = round(time.time() - t0, 1)
         json.dump(res, open(os.path.join(d, "result.json"), "w"), indent=1)
